@@ -227,6 +227,14 @@ def main():
     def env_case(case):
         """resolved environments of a package (by name and per component), for each platform"""
         out = {}
+        if case.get("dsl"):         # DSL 2.0 package: what namespace_to_flowir made of it (environments it invented, components)
+            c = conf.ExperimentConfigurationFactory.configurationForExperiment(case["package"])
+            raw = c.get_flowir_concrete(return_copy=False).raw()
+            g = graph.WorkflowGraph(configuration=c, platform=c.platform_name, primitive=True)
+            comps = {"stage%d.%s" % (x.get("stage", 0), x["name"]): x for x in raw.get("components", [])}
+            return {"environments": canon(raw.get("environments")),
+                    "components": {n: canon(x) for n, x in comps.items()},
+                    "nodes": {n: guarded(lambda: canon(g.environmentForNode(n))) for n in sorted(comps)}}
         for plat in case["platforms"]:
             c = conf.ExperimentConfigurationFactory.configurationForExperiment(case["package"], platform=plat)
             g = graph.WorkflowGraph(configuration=c, platform=c.platform_name, primitive=True)
